@@ -5,6 +5,8 @@ NOTES = ("Machine-checked proof in Coq 8.16 over executable Gallina models of th
          "(translator -> coq/gen). Oracles (math/big, encoding/*, x/net/html, node, strace) only search for failing inputs. "
          "fix: commits and open findings are listed in known_findings.json.")
 ENGINES = [
+    {"name": "Stream", "path": "coq/theories/Stream + coq/gen/IoSkeleton_gen.v", "serves_properties": ["C12", "C14", "C10"],
+     "kind_free_text": "Gallina model of the streaming entry points and of the Writer wrapper's pipe system; I/O skeletons from the translator; harness/cmd/streamcheck"},
     {"name": "Tables", "path": "coq/theories/Tables + coq/gen/Tables_gen.v + translator/", "serves_properties": ["C17", "C04", "C03"],
      "kind_free_text": "tables regenerated from /repo by the go/ast translator, checked in Coq against pinned references; harness/cmd/tablecheck"},
     {"name": "DataUri", "path": "coq/theories/DataUri", "serves_properties": ["C18", "C11"],
@@ -17,6 +19,30 @@ ENGINES = [
      "kind_free_text": "F2 Gallina model of minify.Number/Decimal (precision 0) + lexeme grammar and value spec; extracted to OCaml; harness/cmd/numcheck"},
 ]
 CHECKS = {
+    "C12": {
+        "engine": "Stream", "design_ref": "DESIGN.md section 4 / C12",
+        "technique": "Coq proof: functional model of the entry points + small-step system of the Writer wrapper (invariant, progress, measure) + correspondence over partitions",
+        "text": ("Theorems (Props/C12.v): for every minifier, input and partition into chunks, Minify on a chunked reader, Reader, Writer, Bytes and String give "
+                 "the plain call's bytes and error; for the Writer wrapper's producer/goroutine/pipe system every reachable non-final state has an enabled "
+                 "step (no deadlock in any interleaving), every step decreases a measure (termination), and when Close has returned the goroutine has read "
+                 "exactly the concatenation of the chunks and finished. Tie: the extracted entry-point functions are run on the same reader scripts as the "
+                 "code (all partitions of 8 short inputs, random partitions of samples and benchmark documents of all six types) and must predict result and "
+                 "delivered bytes; Middleware/ResponseWriter are exercised with httptest (type selection, Content-Length)."),
+        "note": ("Trusted: Coq kernel, extraction, driver; io.ReadAll/io.Pipe/WaitGroup semantics as written in the model; the Go scheduler, memory model and "
+                 "net/http are runtime behaviour the model cannot exhibit (sampled by the runs, labelled partial)."),
+    },
+    "C14": {
+        "engine": "Stream", "design_ref": "DESIGN.md section 4 / C14",
+        "technique": "Coq proof over I/O skeletons regenerated from source + fault injection at every position as correspondence",
+        "text": ("Theorems (Props/C14.v): the I/O skeleton of the six Minify methods, regenerated from /repo on every run, satisfies skeletons_ok (every success "
+                 "return passes the final probe write, the lexer's non-EOF error is returned); under such a skeleton a reader failing after any number of "
+                 "bytes yields that error through Minify and Reader, a writer failing from its k-th call on yields the writer's error whenever k is at most "
+                 "the number of calls incl. the probe, later k change nothing, accepted bytes are a prefix of the output, an embedded minifier's failure is "
+                 "still an error; Close always returns (C12's system). Tie: fault-injecting doubles at EVERY k for each sample of each media type, plain and "
+                 "through Reader/Writer with a watchdog; the extracted model must predict each outcome."),
+        "note": ("Trusted: Coq kernel, extraction, driver, the translator's structural reading of the Minify methods (go/ast); front-end fact 'failed ReadAll = "
+                 "empty input whose Err() is the read error' is a section hypothesis checked by the harness for every k."),
+    },
     "C17": {
         "engine": "Tables", "design_ref": "DESIGN.md section 4 / C17",
         "technique": "Coq proof over tables regenerated from source (finite sweep lifted with forallb_forall) + exhaustive public-API oracle",
